@@ -162,6 +162,19 @@ Theorem C18_unknown_epsg_is_conversion_error : forall known tr crs, known crs = 
 Proof. exact unknown_epsg. Qed.
 Print Assumptions C18_unknown_epsg_is_conversion_error.
 
+(* ... and in ANY call history: the two functions keep no state, so whatever was called before - valid codes, the same unknown code once or
+   many times, either direction - the call with the unknown code returns the empty list and a conversion error; more generally every call
+   of a history returns what it returns on its own. (On the model; on the code this is what the CallSequence cases of the run check.) *)
+Theorem C18_unknown_epsg_is_conversion_error_in_any_history : forall known tr before c after,
+  known (call_crs c) = false ->
+  exists rb ra r, run_history known tr (before ++ c :: after) = rb ++ r :: ra /\ length rb = length before /\ conversion_error_result r.
+Proof. exact unknown_epsg_in_any_history. Qed.
+Print Assumptions C18_unknown_epsg_is_conversion_error_in_any_history.
+Theorem C18_calls_do_not_depend_on_history : forall known tr h i c,
+  nth_error h i = Some c -> nth_error (run_history known tr h) i = Some (run_call known tr c).
+Proof. exact history_is_stateless. Qed.
+Print Assumptions C18_calls_do_not_depend_on_history.
+
 (* regression Examples for the two repaired defects: what the current control flow does on the former witnesses, and - clearly
    HISTORICAL - what the control flow before the repairs did (old definitions kept in Project.v for this purpose only) *)
 Example C18_regression_lat_limit_overshoot_now_error :
